@@ -234,6 +234,9 @@ func (hs *serverHandshakeState) handshake() error {
 		if _, err = c.flush(); err != nil {
 			return err
 		}
+		// 启动重传定时器：会话重用时服务端的 flight（ServerHello + CCS + Finished）丢失后
+		// 必须由服务端超时重发，否则 readFinished 中的重传分支永远不会触发。
+		c.retransmitTimer.reset()
 		if err = hs.readFinished(nil); err != nil {
 			return err
 		}
